@@ -296,7 +296,7 @@ BUILTINS_GENERIC = [
     ('mod', 'MODExpression', 2), ('pow', 'POWExpression', 2), ('round', 'ROUNDExpression', 2), ('sign', 'SIGNExpression', 1), ('sin', 'SINExpression', 1),
     ('sinh', 'SINHExpression', 1), ('sqrt', 'SQRTExpression', 1), ('strlen', 'STRLENExpression', 1), ('tan', 'TANExpression', 1), ('tanh', 'TANHExpression', 1),
     ('typeof', 'TYPEOFExpression', 1), ('lower', 'LOWERExpression', 1), ('upper', 'UPPERExpression', 1), ('lsubstr', 'LSUBSTRExpression', 2), ('rsubstr', 'RSUBSTRExpression', 2),
-    ('substr', 'SUBSTRExpression', 3), ('strpos', 'STRPOSExpression', 3),
+    ('substr', 'SUBSTRExpression', 3), ('strpos', 'STRPOSExpression', 3), ('subraw', 'SUBRAWExpression', 3), ('raw', 'RAWExpression', 2),
     ('trim', 'TRIMExpression', 1, 8, 'character loops over a string of at most 2 characters (operand bound)', 2),
     ('ltrim', 'LTRIMExpression', 1, 8, 'character loops over a string of at most 2 characters (operand bound)', 2),
     ('rtrim', 'RTRIMExpression', 1, 8, 'character loops over a string of at most 2 characters (operand bound)', 2),
